@@ -108,23 +108,50 @@ type state struct {
 	kept []keptContainer
 	// never set any more (an empty alignment remembering a length is a violation since fix 175cbbc)
 	staleLen bool
-	hadRows  bool // the container held at least one row since its creation / last Clear
+	reMap    map[string]string // name map handed to the previous RenameRegexp
+	hadRows  bool              // the container held at least one row since its creation / last Clear
 }
 
 type keptContainer struct {
 	op   string
 	sb   align.SeqBag
 	rows gen.Rows
+	// the copy may share residue buffers with this container by construction (Sample hands the rows' bytes on):
+	// names, row order, number of rows, row lengths and the name index are still its own
+	shape bool
 }
 
 // leaveBehind remembers the current container before the history moves on to a copy of it.
 func (s *state) leaveBehind(op string) {
-	s.kept = append(s.kept, keptContainer{op, s.sb, s.m.snapshot()})
+	s.kept = append(s.kept, keptContainer{op: op, sb: s.sb, rows: s.m.snapshot()})
 }
 
 // checkKept: a copy owns its data - whatever happened to it, the containers left behind are unchanged.
 func (s *state) checkKept() {
 	for _, k := range s.kept {
+		if k.shape {
+			got := safeSnap(k.sb)
+			ok := len(got) == len(k.rows)
+			for i := 0; ok && i < len(got); i++ {
+				ok = got[i].Name == k.rows[i].Name && len(got[i].Seq) == len(k.rows[i].Seq)
+				if ok {
+					if _, found := k.sb.GetSequence(got[i].Name); !found {
+						ok = false
+					}
+				}
+			}
+			if al, isAl := k.sb.(align.Alignment); ok && isAl && len(got) > 0 && al.Length() != len(got[0].Seq) {
+				ok = false
+			}
+			if inv := h.Invariants(k.sb); ok && len(inv) > 0 {
+				ok = false
+			}
+			if !ok {
+				s.c.Failf(k.op+":source-changed-through-the-sample", "after ops %v\nnames, order, row lengths or name index of the container that was sampled changed while the sample was being modified\nexpected names / lengths of %s\ngot %s (Length()/invariants: %v)", s.ops, h.Show(k.rows), h.Show(got), h.Invariants(k.sb))
+				return
+			}
+			continue
+		}
 		if got := safeSnap(k.sb); !h.EqRows(got, k.rows) {
 			s.c.Failf(k.op+":copy-shares-data", "after ops %v\nthe container left behind by %s changed while its copy was being modified\nexpected=%s\ngot     =%s", s.ops, k.op, h.Show(k.rows), h.Show(got))
 			return
@@ -640,7 +667,25 @@ func opRenameRegexp(s *state) (string, bool) {
 	pats := [][2]string{{"^", "P_"}, {"$", "_S"}, {"[0-9]+", "N"}, {"s", "S"}, {"(.)$", "${1}x"}, {"_", "."}, {"^(.)", "$1$1"}, {"(", ""}}
 	p := pats[r.Intn(len(pats))]
 	nm := map[string]string{}
-	s.ops = append(s.ops, fmt.Sprintf("RenameRegexp(%q,%q)", p[0], p[1]))
+	how := ""
+	switch r.Intn(4) {
+	case 0:
+		// the caller's map already holds entries for the current names (left by an earlier call with another regex,
+		// on another alignment, or anything else): the map is an OUTPUT of the call, the regex of THIS call applies
+		for _, row := range m.rows {
+			if r.Bool() {
+				nm[row.name] = "stale_" + row.name
+			}
+		}
+		how = " with a map already holding entries for some current names"
+	case 1:
+		if s.reMap != nil {
+			nm = s.reMap
+			how = " with the map of the previous RenameRegexp"
+		}
+	}
+	s.reMap = nm
+	s.ops = append(s.ops, fmt.Sprintf("RenameRegexp(%q,%q)%s", p[0], p[1], how))
 	err := s.sb.RenameRegexp(p[0], p[1], nm)
 	re, cerr := regexp.Compile(p[0])
 	if cerr != nil {
@@ -1205,6 +1250,7 @@ func opSample(s *state) (string, bool) {
 	n := len(m.rows)
 	nb := r.PickInt([]int{0, 1, n - 1, n, n + 1})
 	s.ops = append(s.ops, fmt.Sprintf("Sample(%d)", nb))
+	before := m.snapshot()
 	smp, err := s.al.Sample(nb)
 	if nb < 1 || nb > n {
 		if err == nil {
@@ -1233,6 +1279,7 @@ func opSample(s *state) (string, bool) {
 	}
 	m.rows = rows
 	m.policy = align.IGNORE_NONE
+	s.kept = append(s.kept, keptContainer{op: "Sample", sb: s.sb, rows: before, shape: true})
 	s.setContainer(smp)
 	return "Sample", true
 }
